@@ -272,3 +272,80 @@ package ss2022
 //@   ensures result.Headroom == ShadowPacketServerMessageHeadroom
 //@ func (*ShadowPacketClientUnpacker).ClientUnpackerInfo
 //@   ensures result.Headroom == ShadowPacketServerMessageHeadroom
+
+// ---------------------------------------------------------------------------
+// Policy fields (property C18): an omitted field (zero value), an explicitly empty value and the documented
+// default are the same policy. Policies are compared as function identities.
+// ---------------------------------------------------------------------------
+
+//@ func ParsePaddingPolicy
+//@   modifies nothing
+//@   ensures s == "" ==> isnil(result1) && result0 == PadPlainDNS
+//@   ensures s == "NoPadding" ==> isnil(result1) && result0 == NoPadding
+//@   ensures s == "PadAll" ==> isnil(result1) && result0 == PadAll
+//@   ensures s == "PadPlainDNS" ==> isnil(result1) && result0 == PadPlainDNS
+
+//@ func ParseRejectPolicy
+//@   modifies nothing
+//@   ensures s == "" ==> isnil(result1) && result0 == ForceReset
+//@   ensures s == "JustClose" ==> isnil(result1) && result0 == JustClose
+//@   ensures s == "ForceReset" ==> isnil(result1) && result0 == ForceReset
+
+//@ func (PaddingPolicyField).Policy
+//@   modifies nothing
+//@   ensures isnil(p.policy) ==> result == PadPlainDNS
+//@   ensures !isnil(p.policy) ==> result == p.policy
+
+//@ func (RejectPolicyField).Policy
+//@   modifies nothing
+//@   ensures isnil(p.policy) ==> result == ForceReset
+//@   ensures !isnil(p.policy) ==> result == p.policy
+
+//@ func (RejectPolicyField).Name
+//@   modifies nothing
+//@   ensures p.name == "" ==> result == "ForceReset"
+//@   ensures p.name != "" ==> result == p.name
+
+//@ func (PaddingPolicyField).Name
+//@   modifies nothing
+//@   ensures p.name == "" ==> result == "PadPlainDNS"
+//@   ensures p.name != "" ==> result == p.name
+
+// The documented default of the reject policy is "ForceReset" (README, section TCP Reject Policy).
+//@ lemma paddingPolicyDefaults(p PaddingPolicyField)
+//@   requires isnil(p.policy) && p.name == ""
+//@   ensures p.Policy() == ParsePaddingPolicy("")[0] && p.Policy() == PadPlainDNS
+
+//@ lemma rejectPolicyDefaults(p RejectPolicyField)
+//@   requires isnil(p.policy) && p.name == ""
+//@   ensures p.Policy() == ParseRejectPolicy("")[0]
+//@   ensures p.Policy() == ForceReset
+//@   ensures p.Name() == "ForceReset"
+
+// Key lengths (property C18): accepted iff every key has exactly the method's length.
+//@ pure pskLen(method string) int = method == "2022-blake3-aes-128-gcm" ? 16 : (method == "2022-blake3-aes-256-gcm" ? 32 : 0)
+
+//@ func PSKLengthForMethod
+//@   modifies nothing
+//@   ensures isnil(result1) <==> (method == "2022-blake3-aes-128-gcm" || method == "2022-blake3-aes-256-gcm")
+//@   ensures isnil(result1) ==> result0 == pskLen(method)
+
+//@ func CheckPSKLength
+//@   modifies nothing
+//@   loop 0 invariant forall j int :: 0 <= j && j <= rangeindex ==> len(psks[j]) == pskLength
+//@   ensures isnil(result) ==> pskLen(method) != 0 && len(psk) == pskLen(method)
+//@   ensures isnil(result) ==> (forall j int :: 0 <= j && j < len(psks) ==> len(psks[j]) == pskLen(method))
+//@   ensures pskLen(method) == 0 ==> !isnil(result)
+//@   ensures len(psk) != pskLen(method) ==> !isnil(result)
+//@   ensures (exists j int :: 0 <= j && j < len(psks) && len(psks[j]) != pskLen(method)) ==> !isnil(result)
+
+// The session server's minimum NAT timeout is the replay window (property C18: a session must outlive the
+// window in which its packets are accepted).
+//@ func NewUDPServer
+//@   modifies nothing
+//@   ensures fresh(result) && result.info.MinNATTimeout == ReplayWindowDuration
+
+//@ func (*UDPServer).Info
+//@   requires !isnil(s)
+//@   modifies nothing
+//@   ensures result == s.info
